@@ -2796,14 +2796,35 @@ void header_clean_trailing_whitespace(token * header, const char * source) {
 }
 
 
+/// Is this local asset path already used by another asset?
+static bool asset_path_in_use(scratch_pad * scratch, const char * asset_path) {
+	asset * a, * a_tmp;
+
+	HASH_ITER(hh, scratch->asset_hash, a, a_tmp) {
+		if (strcmp(a->asset_path, asset_path) == 0) {
+			return true;
+		}
+	}
+
+	return false;
+}
+
+
 asset * asset_new(char * url, scratch_pad * scratch) {
 	asset * a = malloc(sizeof(asset));
 
 	if (a) {
 		a->url = my_strdup(url);
 
-		// Create a unique local asset path
+		// Create a unique local asset path -- the random number generator
+		// may have been re-seeded since the last asset was stored (e.g. for
+		// header labels), in which case it repeats itself
 		a->asset_path = uuid_new();
+
+		while (asset_path_in_use(scratch, a->asset_path)) {
+			free(a->asset_path);
+			a->asset_path = uuid_new();
+		}
 	}
 
 	return a;
